@@ -11,14 +11,17 @@ PY = "/venv/bin/python"
 SETUP = (
     "/venv/bin/python -c 'import hypothesis' 2>/dev/null || "
     "/venv/bin/pip install --no-index --find-links /opt/veriftools/wheels --target /verif/.deps "
-    "hypothesis sortedcontainers attrs"
+    "hypothesis sortedcontainers attrs; "
+    "PYTHONPATH=/verif/.deps /venv/bin/python -c 'import atheris' 2>/dev/null || "
+    "/venv/bin/pip install -q --no-index --find-links /opt/veriftools/wheels --target /verif/.deps atheris || true"
 )
 
 # id -> (level, technique, level text, level note, design ref)
 CHECKS = {
     "C05": (
         "exploration",
-        "exhaustive enumeration of a boundary alphabet to depth 2 + Hypothesis recursive values; oracles: totality, "
+        "exhaustive enumeration of a boundary alphabet to depth 2 + Hypothesis recursive values + (thorough tier) 16 "
+        "coverage-guided atheris/libFuzzer campaigns driving the same strategy through fuzz_one_input; oracles: totality, "
         "cross-process determinism, injectivity by bucketing against a canonical form",
         "Every value of the enumerated sub-domain (exhaustive) and every generated deeper value is hashed by the real "
         "dds_hash in two interpreters; collisions are decided by bucketing all signatures. Generated search is the right "
